@@ -212,6 +212,15 @@ def gen_range_cases(c):
             for t in itertools.product((x, d), repeat=n):
                 for s in ((b"2", b"1,3", b"2-") if c.volume == "quick" else (b"1", b"2", b"1,3", b"2-", b"-2", b"2-3")):
                     cases.append((d, s, bytes(t)))
+    # many fields: field numbers around 2^8 and 2^16 (an index kept in a narrower type would wrap)
+    for nf in (300, 70000):
+        fields = [bytes([97 + (i % 26)]) + (b"%d" % i if i % 1000 == 0 else b"") for i in range(nf)]
+        for d in (9, 44):
+            line = bytes([d]).join(fields)
+            for s in ([b"255", b"256", b"257", b"255-257", b"1,256", b"300", b"301", b"299-", b"2,257-258,300"] if nf == 300 else
+                      [b"65535", b"65536", b"65537", b"65535-65537", b"1,65536", b"70000", b"70001", b"69999-", b"256,65536-65537"]):
+                cases.append((d, s, line))
+                cases.append((d, s, line + bytes([d])))
     # random: longer lines, other delimiters (incl. bytes >= 0x80), larger field numbers, multi-byte content
     delims = [9, 32, 44, 0x7C, 0xFF, 0x80, 1]
     for _ in range(4000 if c.volume == "quick" else 40000):
